@@ -31,6 +31,51 @@ Step C  THE PROPERTY IS OBSERVED HERE: a fixed battery plus random batteries are
         After a difference has been seen (never on a clean run) the first report of each kind is explained:
         the texts instead of digests, whether the item alone differs between two hash seeds, and otherwise
         which single earlier item (found by halving the history in fresh interpreters) changes it.
+
+PUBLIC ENTRY POINTS AND KEYWORD ARGUMENTS THAT REACH WHAT C18 TALKS ABOUT (bytes of the markup, dependency
+order, head_content names) -- each is driven by the worker (harness/c18_worker.py: observe_object /
+observe_routes / Prog) with default AND non-default values; `opts` of an item carries the non-default ones:
+  construction   Tag(name, *children, _add_ws=, **attrs) . tags.<fn> / svg.<fn> . TagList(*children) . Python lists
+                 (nested) as children . HTML / str / str subclass / numbers . objects with tagify() and / or
+                 _repr_html_() . head_content(*children) . HTMLDependency(name, version, source=, script=,
+                 stylesheet=, meta=, head=, all_files=) . MetadataNode() . JSX components (jsx_tag_create) .
+                 consolidate_attrs(*args, **kw) . css(collapse_=, **kw) . another tag's .attrs given as a dict
+  mutation       Tag.append / extend / insert . TagList.append / extend / insert / + / radd / += . attrs[...] = /
+                 update(*dicts, **kw) / del . add_class(prepend=) / remove_class / add_style(prepend=) .
+                 HTMLDocument.append
+  copies         copy.copy / copy.deepcopy of Tag, TagList, HTMLDocument . tagify() (once and twice) . == on the copies
+  markup         Tag.get_html_string(indent, eol) . TagList.get_html_string(indent, eol, add_ws=) . render() .
+                 str / repr / _repr_html_ (in both values of htmltools.html_dependency_render_mode) . the with-block
+                 (sys.displayhook) route, the tag then copied / compared / rendered
+  dependencies   Tag / TagList .get_dependencies(dedup=True|False) . _resolve_dependencies . render()["dependencies"]
+  documents      HTMLDocument(*children, lang= / class_ / style / data_* ...).render(lib_prefix= None | "" | nested,
+                 include_version=) . Tag / TagList / HTMLDocument .save_html(file, libdir= None | nested,
+                 include_version=) . HTMLTextDocument(html, deps=, deps_replace_pattern= with regex metacharacters)
+                 .render(lib_prefix=, include_version=) fed with the json-mode text of the object (and rendered in
+                 json mode too) . HTMLDependency.source_path_map / as_html_tags / serialize_to_script_json
+  top level      everything is taken from the top-level package (`htmltools.X`), tags / svg from their modules
+The results are judged by the property's own oracles: identical in every process / after every history / when made
+again (digests), head_content names = 'headcontent_' + sha1(content), and -- for every document-like result of an
+item whose head_content contents are known ("hcdoc") -- each distinct content exactly once, names in
+first-occurrence order.
+
+SIZES.  Every countable thing of the property reaches, sparsely, 7..9, 15..17, 31..33, 63..65, 127..129, 255..257, 300
+in the quick tier (head_content nodes per document, dependencies / versions of one name per document and per
+_resolve_dependencies call, serialised dependencies per text, values given to unique(), attributes per tag, class
+tokens per value, dicts merged into one attribute, children, nesting depth of tags / lists / tagifiable objects
+(<= 70), steps of a program on one object) and strings reach 300 / 5000 / 70000 / 140000 characters, with the
+part that matters beyond the threshold: head_content payload FAMILIES share all but a marker placed at the
+head, the middle, a 2^k seam (one before / at / after) or the tail, in several payload forms (text, HTML, style,
+script, title, attribute value), multi-byte units included.
+
+STATE SHARED BETWEEN OBJECTS AND CALLS.  Besides the histories (every item after every other, in 8 orders), on one object:
+str(x) in json dependency mode (the markup and every dependency written out in full) is taken before and after all other
+entry points were used on x and must not change; the lists handed out by render() / get_dependencies() are changed by
+the caller and the next render() must give what the first gave; every HTMLDependency (items with opts) and every
+head_content is made a second time from the very same argument objects and must come out the same; a document made
+twice from the same object, a text document made twice from equal arguments, are the same.  LEFT OUT, reported as a
+finding about /repo: two HTMLTextDocument objects given the SAME `deps` list object (the constructor keeps the caller's
+list and appends the extracted dependencies to it).
 """
 from __future__ import annotations
 
@@ -59,8 +104,10 @@ V_DOC = "document does not include equal head_content once / different content s
 V_EXTRACT = "extracted serialised dependencies are not in first-occurrence order of their distinct payloads"
 V_UNIQUE = "unique() is not first-occurrence order"
 V_HISTORY = "rendering depends on what was built or rendered earlier in the process"
+V_SECOND = "a second object built from the very same arguments differs from the first"
 V_URL = "a dependency's URLs in the document are not <lib_prefix>/<name>[-<version>]/<file> of that dependency"
 
+MODEL_MAX = 40000          # characters of an item's description beyond which it is not sent to the extracted model
 ERR_NAME = {1: "RuntimeError", 2: "TypeError", 3: "TypeError", 4: "KeyError", 5: "ValueError",
             6: "RuntimeError", 7: "RecursionError"}
 
@@ -194,6 +241,13 @@ def fixed_battery() -> list[dict]:
     items.append(text_item("fix:text-none", [], [{"name": "given", "version": "1.0"}], ["<p>no deps</p>"]))
     items.extend(pkg_battery())
     items.extend(fixed_progs())
+    # every other entry point, with non-default arguments, on the fixed constructions
+    k = 0
+    for it in items:
+        if it["kind"] in ("tree", "expr", "prog") and (it["kind"] != "prog" or k % 3 == 0 or "opts" in it):
+            it.setdefault("opts", fixed_opts(k))
+        k += 1
+    items.extend(fixed_long_items())
     items.append({"id": "fix:resolve", "kind": "resolve",
                   "deps": [{"name": n, "version": v} for n, v in coll + list(reversed(coll))]})
     items.append({"id": "fix:unique", "kind": "unique",
@@ -339,7 +393,7 @@ def rand_hcdoc_item(rng, iid: str) -> dict:
             else:
                 out.append(["T", rng.choice(["body", "text", ""])])
         return out
-    return {"id": iid, "kind": "tree", "descs": kids(2), "doc_kw": [], "_hcdoc": True}
+    return {"id": iid, "kind": "tree", "descs": kids(2), "doc_kw": [], "hcdoc": True}
 
 
 def exhaustive_hc_items(k: int) -> list[dict]:
@@ -350,7 +404,7 @@ def exhaustive_hc_items(k: int) -> list[dict]:
     for combo in itertools.product(range(len(HC_POOL)), repeat=k):
         kids = [hc(combo[0]), G("div", True, [], [hc(i) for i in combo[1:]])]
         out.append({"id": "tuple:" + ":".join(map(str, combo)), "kind": "tree", "descs": kids, "doc_kw": [],
-                    "_hcdoc": True})
+                    "hcdoc": True})
     return out
 
 
@@ -387,6 +441,8 @@ def rand_battery(rng, n: int, tag: str) -> list[dict]:
         else:
             vals = [rng.choice(["a", "b", "c", "dd", "e", "", "10", "B", "é"]) for _ in range(rng.choice([3, 6, 12]))]
             items.append({"id": iid, "kind": "unique", "values": vals})
+        if items[-1]["kind"] in ("tree", "text") and rng.random() < 0.2:
+            items[-1]["opts"] = rand_opts(rng)
     return items
 
 
@@ -529,7 +585,9 @@ def rand_attr_pairs(rng, profile: str) -> list:
 def rand_args(rng, nregs: int, profile: str, jsx: bool = False) -> list:
     args = []
     for _ in range(rng.choice([0, 1, 1, 2, 3, 4])):
-        if not jsx and rng.random() < 0.35:
+        if not jsx and nregs and rng.random() < 0.06:
+            args.append({"ra": rng.randrange(nregs)})          # another tag's .attrs object as an attribute dict
+        elif not jsx and rng.random() < 0.35:
             args.append({"a": rand_attr_pairs(rng, profile)})
         else:
             args.append(rand_kid(rng, nregs, jsx=jsx))
@@ -607,7 +665,10 @@ def rand_prog_item(rng, iid: str) -> dict:
             steps.append(rand_mutator(rng, nregs, profile))
     kw = rng.choice([[], [], [["lang", "en"]], [["hidden", True], ["data_n", 1.0]], [["class", "k"], ["tabindex", 0]],
                      [["data_n", 1], ["lang", U("en")]]])
-    return {"id": iid, "kind": "prog", "steps": steps, "doc_kw": kw}
+    it = {"id": iid, "kind": "prog", "steps": steps, "doc_kw": kw}
+    if rng.random() < 0.2:
+        it["opts"] = rand_opts(rng)
+    return it
 
 
 def fixed_progs() -> list[dict]:
@@ -669,11 +730,421 @@ def fixed_progs() -> list[dict]:
                                  ["append", 0, [2, 2.0, {"l": [3, [3.0]]}]], ["extend", 0, [H("<i>"), U("<i>"), "<i>"]],
                                  ["insert", 0, 0, -0.0], ["iadd", 0, [10 ** 20, 1e20]], ["tagify", 0], ["copy", 0],
                                  ["append", 2, ["only in the copy"]], ["render", 0], ["render", 1], ["render", 2]]))
+    # two features together: HTML() values through the class / style helpers, the attrs object into consolidate_attrs
+    # and back into a tag; JSX components inside ordinary tags (all routes: the with-block among them)
+    allr = {k: v for k, v in fixed_opts(0).items()}
+    out.append(dict(item("html-class-cons", [
+        ["fn", "tags", "div", ["k"], [["class_", H("a&amp;b c")], ["style", H("x:'1';")]]],
+        ["add_class", 0, H("d&amp;e"), False], ["add_class", 0, "f<g", True], ["add_style", 0, H("y:\"2\";"), False],
+        ["add_style", 0, "z:3;", True], ["cons", [{"ra": 0}, {"a": [["class", H("h")], ["style", "w:4;"]]}, "kid", {"r": 0}],
+                                        [["class_", "i"]]],
+        ["fn", "tags", "span", [{"ra": 0}, {"ra": 1}, "t"], [["class_", H("j")]]], ["remove_class", 2, "c i"],
+        ["copy", 2], ["deepcopy", 1], ["attrs", 0], ["attrs", 1], ["attrs", 2]]), opts=allr))
+    out.append(dict(item("jsx-in-tags", [
+        ["jsx", "Foo", ["kid", {"n": dep("jsx-dep", "1.0", script={"src": "j.js"})}], [["open", True], ["n", 1.0]]],
+        ["fn", "tags", "div", [{"r": 0}, "text", {"n": hc(5)}], [["class_", "host"]]],
+        ["jsx", "Foo.Bar", [{"r": 1}], [["slot", {"r": 0}]]],
+        ["fn", "tags", "section", [{"r": 2}, {"r": 0}], []], ["render", 3]]), opts=dict(allr, wrap="section", indent=2)))
     out.append(item("faults", [["tag", "div", None, [{"x": "obj"}], []], ["tag", "div", None, ["k"], [["id", {"x": "bytes"}]]],
                                ["tag", "div", None, ["k"], [["id", "i"]]], ["set", 2, "a", {"x": "complex"}],
                                ["upd", 2, [[["b", 1.0], ["c", {"x": "list"}], ["d", True]]], []], ["attrs", 2],
                                ["append", 2, ["ok", {"x": "obj"}]], ["add_class", 2, {"x": "obj"}, False],
                                ["fn", "tags", "span", [1.0], [["hidden", True]]]]))
+    return out
+
+
+
+# ------------------------------------------------------------------------------------------
+# non-default arguments: the `opts` of an item (see c18_worker.observe_routes)
+# ------------------------------------------------------------------------------------------
+INDENTS = [0, 1, 2, 3, 7]
+EOLS = ["\n", "\r\n", "", "\n\n", " ", "\t\n"]
+LIB_PREFIXES = ["lib", None, "", "static/libs", "a/b/c", "lib with space", "../up"]
+LIBDIRS = ["lib", None, "a/b", "static"]
+PATTERNS = ["@@DEPS@@", "$1\\1(.*)[a-z]+?", "<!-- deps (.*) -->", "{{ head|safe }}", "\\g<0>^$|", '<meta data-foo="">',
+            "[[deps]]", "a+b*c?{2}"]
+WRAPS = ["div", "span", "body", "ul", "section", "my-el", "p"]
+DOC_KWS = [[], [["lang", "en"]], [["class", "k"], ["data_q", "1"]], [["lang", "fr"], ["class_", "a b a"], ["style", "margin:0;"]],
+           [["style", "x:1;"], ["hidden", True], ["data_n", 1.0]], [["class_", "doc"], ["className", "doc2"], ["id", "root"]]]
+
+
+def rand_opts(rng, all_groups: bool = False, ngroups: int = 3) -> dict:
+    return {**({} if all_groups else {"groups": sorted(rng.sample(W.ROUTE_GROUPS, ngroups))}), "indent": rng.choice(INDENTS), "eol": rng.choice(EOLS), "add_ws": rng.random() < 0.6,
+            "lib_prefix": rng.choice(LIB_PREFIXES), "include_version": rng.random() < 0.5,
+            "libdir": rng.choice(LIBDIRS), "save": rng.choice([None, None, None, "list", "tag", "doc"]),
+            "pattern": rng.choice(PATTERNS), "wrap": rng.choice(WRAPS), "build_json": rng.random() < 0.2}
+
+
+def fixed_opts(k: int) -> dict:
+    """a deterministic cycle through the pools (the fixed battery does not draw from the PRNG)"""
+    g = W.ROUTE_GROUPS
+    return {**({} if k % 4 == 0 else {"groups": sorted({g[k % 8], g[(k // 8 + 3 + k) % 8], g[(5 * k + 1) % 8]})}),
+            "indent": INDENTS[k % len(INDENTS)], "eol": EOLS[(k // 2) % len(EOLS)], "add_ws": k % 3 != 0,
+            "lib_prefix": LIB_PREFIXES[k % len(LIB_PREFIXES)], "include_version": k % 2 == 0,
+            "libdir": LIBDIRS[(k // 3) % len(LIBDIRS)], "save": [None, "list", None, "tag", None, "doc"][k % 6],
+            "pattern": PATTERNS[k % len(PATTERNS)], "wrap": WRAPS[k % len(WRAPS)], "build_json": k % 5 == 4}
+
+
+# ------------------------------------------------------------------------------------------
+# sizes: counts around 2^k and long strings, the part that matters BEYOND the threshold
+# ------------------------------------------------------------------------------------------
+SIZES = [7, 8, 9, 15, 16, 17, 31, 32, 33, 63, 64, 65, 127, 128, 129, 255, 256, 257, 300]
+DEPTHS = [7, 8, 9, 15, 16, 17, 31, 32, 33, 63, 64, 65, 70]
+STR_LENS = [299, 300, 301, 511, 512, 513, 1023, 1024, 1025, 2047, 2048, 2049, 4095, 4096, 4097, 5000, 8191, 8192,
+            8193, 8200, 12287, 12288, 12300, 16383, 16384, 16385, 20000, 32767, 32768, 32769, 65535, 65536, 65537,
+            70001, 131071, 131072, 131073, 140000]
+UNITS_PLAIN = ["ab", "0123456789abcdef", ".w{margin:0;padding:0}\n", "é", "a\U0001F600b", "線-", "q "]
+UNITS_SPECIAL = ["x&y<z> ", "<b>&amp;</b>", "it's \"q\"\r\n"]
+
+
+def pick_sizes(rng, k: int, pool=None) -> list[int]:
+    """k sizes: always one of the four largest (>= 255; depths: >= 63), one from the middle, one small"""
+    pool = pool or SIZES
+    cut = len(pool) // 2 - 3
+    out = [rng.choice(pool[-4:]), rng.choice(pool[cut:-4]), rng.choice(pool[:cut])]
+    out += [rng.choice(pool) for _ in range(max(0, k - 3))]
+    return out[:k]
+
+
+def esc_text(s: str) -> str:
+    return s.replace("&", "&amp;").replace("<", "&lt;").replace(">", "&gt;")
+
+
+def esc_attr(s: str) -> str:
+    return (esc_text(s).replace('"', "&quot;").replace("'", "&apos;").replace("\r", "&#13;").replace("\n", "&#10;"))
+
+
+FORMS = ["T", "H", "R", "style", "script", "title", "meta", "T+M", "H+dep"]
+
+
+def form_payload(form: str, s) -> list:
+    """the head_content arguments of a form; s is a string or its {"$rep": ...} notation"""
+    if form == "T":
+        return [["T", s]]
+    if form == "H":
+        return [["H", s]]
+    if form == "R":
+        return [["R", s]]
+    if form == "style":
+        return [G("style", True, [], [["H", s]])]
+    if form == "script":
+        return [G("script", True, [], [["T", s]])]
+    if form == "title":
+        return [G("title", True, [], [["T", s]])]
+    if form == "meta":
+        return [G("meta", False, [["name", ["S", "long"]], ["content", ["S", s]]], [])]
+    if form == "T+M":
+        return [["M", None], ["T", s]]
+    if form == "H+dep":
+        return [["H", s], ["M", NESTED_DEP]]
+    raise ValueError(form)
+
+
+def form_content(form: str, s: str) -> str:
+    """what the arguments of the form render to (written from the rendering rules: text is escaped except
+    inside script / style, trusted markup and self-rendered objects are written as they are, an attribute
+    value is escaped with the attribute table, metadata leaves no trace)"""
+    if form in ("T", "T+M"):
+        return esc_text(s)
+    if form in ("H", "R", "H+dep"):
+        return s
+    if form in ("style", "script"):
+        return "<%s>%s</%s>" % (form, s, form)
+    if form == "title":
+        return "<title>" + esc_text(s) + "</title>"
+    if form == "meta":
+        return '<meta name="long" content="' + esc_attr(s) + '"/>'
+    raise ValueError(form)
+
+
+def hcf(form: str, s) -> list:
+    """a head_content node of a known form; "expect" = [form, s] is what the oracle derives the content from"""
+    return ["M", {"hc": form_payload(form, s), "expect": [form, s]}]
+
+
+def rep(unit: str, n: int, pos: int, ins: str) -> dict:
+    return {"$rep": [unit, n, pos, ins]}
+
+
+def marker(k: int) -> str:
+    return "[k%06d]" % k
+
+
+def place(rng, nodes: list, layout: str) -> list:
+    """the nodes, in this order, in a tree of the given layout"""
+    if layout == "flat":
+        return [G("div", True, [], nodes)]
+    if layout == "top":
+        return list(nodes)
+    if layout == "lists":
+        out: list = []
+        for x in reversed(nodes):
+            out = [x, ["L", out] if len(out) % 3 else ["L", out, "t"]] if out else [x]
+        return [G("section", True, [], [["L", out]])]
+    if layout == "chain":
+        t = None
+        for x in reversed(nodes):
+            t = G(rng.choice(["div", "section", "ul", "span"]), True, [], [x] + ([t] if t is not None else []))
+        return [t]
+    if layout == "objects":
+        # (a tagifiable object returns tagified content: the nested object sits inside a tag of its expansion)
+        out2: list = []
+        for x in reversed(nodes):
+            out2 = [x, ["C", None, [G("div", True, [], out2)], len(out2) % 2 == 0]] if out2 else [x]
+        return [G("div", True, [], out2)]
+    if layout == "body":
+        return [G("body", True, [["class", ["S", "b"]]], nodes)]
+    if layout == "html":
+        half = len(nodes) // 2
+        return [G("html", True, [["data-a", ["S", "1"]]],
+                  [G("head", True, [], [G("title", True, [], [["T", "own head"]])] + nodes[:half]),
+                   G("body", True, [], nodes[half:])])]
+    raise ValueError(layout)
+
+
+def seam_positions(n: int) -> list[int]:
+    out = {0, 1, n // 2, n - 1, n}
+    b = 64
+    while b <= n:
+        out |= {b - 1, b, b + 1}
+        b *= 2
+    # the last whole block of the usual block sizes
+    for blk in (64, 512, 4096, 8192, 65536):
+        last = (n // blk) * blk
+        if last:
+            out |= {last - 1, last, min(n, last + 1)}
+    return sorted(x for x in out if 0 <= x <= n)
+
+
+def long_family_item(rng, iid: str, n: int, base_k: int, forms=None, unit=None, positions=None, layout=None) -> dict:
+    """several head_content payloads that share a long base and differ in a marker only (at the head, the middle,
+    a seam or the tail), some of them equal in content through another form, in one document"""
+    special = rng.random() < 0.25 if unit is None else False
+    unit = unit or rng.choice(UNITS_SPECIAL if special else UNITS_PLAIN)
+    seams = seam_positions(n)
+    # (few members when the strings are very long: the library's extraction of serialised dependencies scans the
+    # json-mode text with a lazy regular expression)
+    positions = positions or ([n, n] + rng.sample(seams, 1 if n >= 60000 else min(len(seams), rng.choice([1, 2, 3]))))
+    forms = forms or [rng.choice(FORMS)] * 2 + [rng.choice(FORMS) for _ in range(len(positions))]
+    nodes = []
+    for j, pos in enumerate(positions):
+        nodes.append(hcf(forms[j % len(forms)], rep(unit, n, pos, marker(base_k + j))))
+    if rng.random() < 0.5 and n < 60000:
+        # the base alone: a proper prefix of every member whose marker is at the tail
+        nodes.append(hcf(forms[0], rep(unit, n, 0, "")))
+    # equal content once more (same form; and as text / trusted markup / self-rendered when nothing is escaped)
+    u, nn, pos, ins = nodes[0][1]["expect"][1]["$rep"]
+    nodes.append(hcf(nodes[0][1]["expect"][0], rep(u, nn, pos, ins)))
+    f0 = nodes[0][1]["expect"][0]
+    if f0 in ("T", "H", "R") and esc_text(unit) == unit:
+        nodes.append(hcf(rng.choice(["T", "H", "R", "T+M", "H+dep"]), rep(u, nn, pos, ins)))
+    rng.shuffle(nodes)
+    nodes.insert(rng.randrange(len(nodes) + 1), ["T", "body text"])
+    layout = layout or rng.choice(["flat", "top", "lists", "chain", "objects", "body", "html"])
+    return {"id": iid, "kind": "tree", "descs": place(rng, nodes, layout), "doc_kw": rng.choice(DOC_KWS),
+            "hcdoc": True, "opts": rand_opts(rng, True)}
+
+
+def hc_count_item(rng, iid: str, n: int, base_k: int) -> dict:
+    """n head_content nodes in one document; the last one repeats an early content or differs from it in the
+    last character only"""
+    nodes = []
+    for j in range(n - 1):
+        nodes.append(hcf(rng.choice(["T", "H", "title", "meta", "T"]), marker(base_k + j)))
+    first_form, first_s = nodes[0][1]["expect"]
+    nodes.append(hcf(first_form, first_s) if rng.random() < 0.5 else hcf(first_form, first_s + "'"))
+    layout = rng.choice(["flat", "top", "lists", "chain", "objects", "body", "html"] if n <= 70 else
+                        ["flat", "top", "body", "html"])
+    return {"id": iid, "kind": "tree", "descs": place(rng, nodes, layout), "doc_kw": rng.choice(DOC_KWS),
+            "hcdoc": True, "opts": rand_opts(rng, n <= 70, 4)}
+
+
+def many_deps(rng, n: int) -> list:
+    """n dependency payloads over about n/2 names; the last one collides with the first (a higher version)"""
+    names = [f"d{j}" for j in range(max(2, n // 2))]
+    out = [{"name": "d0", "version": "1.0", "script": {"src": "first.js"}}]
+    for j in range(1, n - 1):
+        out.append({"name": rng.choice(names), "version": rng.choice(["1", "1.0", "1.9", "1.10", "2", "0.0.1", "1.0.0.1"]),
+                    **rng.choice([{}, {"script": {"src": f"s{j}.js"}}, {"stylesheet": [{"href": f"c{j}.css"}]}])})
+    out.append({"name": "d0", "version": rng.choice(["1.0", "3", "0.1"]), "script": {"src": "last.js"}})
+    return out
+
+
+def many_versions(rng, n: int) -> list:
+    """n versions of ONE name (the highest somewhere beyond the threshold), long version strings included"""
+    vs = [".".join(str(rng.randrange(0, 12)) for _ in range(rng.choice([1, 2, 3, 4]))) for _ in range(n - 2)]
+    vs.insert(rng.randrange(n // 2, n - 1), "12." + ".".join(["0"] * rng.choice([1, 8, 33])) + ".1")
+    vs.append("12")
+    return [{"name": "one", "version": v, "script": {"src": f"v{j}.js"}} for j, v in enumerate(vs)]
+
+
+def deps_count_items(rng, iid: str, n: int) -> list[dict]:
+    ps = many_deps(rng, n) if rng.random() < 0.6 else many_versions(rng, n)
+    nodes = [["M", p] for p in ps]
+    layout = rng.choice(["flat", "top", "lists", "chain", "objects", "body"] if n <= 70 else ["flat", "top", "body"])
+    return [{"id": iid + ":tree", "kind": "tree", "descs": place(rng, nodes, layout), "doc_kw": rng.choice(DOC_KWS),
+             "opts": rand_opts(rng, n <= 70, 4)},
+            {"id": iid + ":resolve", "kind": "resolve", "deps": [{"name": p["name"], "version": p["version"]} for p in ps]}]
+
+
+def big_text_item(rng, iid: str, n: int, long_len: int) -> dict:
+    """a text with n serialised dependencies (drawn with repetition; the last one repeats the first or is new), one
+    of them with a long head string, long fillers between them"""
+    pool = [{"name": f"t{j}", "version": rng.choice(["1.0", "2.1"]), **rng.choice([{}, {"script": {"src": "s.js"}}])}
+            for j in range(max(2, (2 * n) // 3))]
+    seq = [rng.choice(pool) for _ in range(n - 1)]
+    seq.append(seq[0] if rng.random() < 0.5 else {"name": "last", "version": "9"})
+    parts: list = ["<html><head>", "$PAT", "</head><body>"]
+    long_at = rng.randrange(n)
+    for j, p_ in enumerate(seq):
+        if j == long_at:
+            q = dict(p_, name="longhead", head="@@LONG@@")
+            a, b = (OPEN_TAG + json.dumps(q) + CLOSE_TAG).split("@@LONG@@")
+            parts += [a, rep("abcdefg ", long_len, long_len, "tail%d" % j), b]
+        else:
+            parts.append(ser(p_))
+        if j % 7 == 3:
+            parts.append(rep("<p>filler</p>\n", rng.choice([300, 5000, 70000]), 0, ""))
+    parts.append("</body></html>")
+    pat = rng.choice(PATTERNS)
+    parts = [pat if x == "$PAT" else x for x in parts]
+    return {"id": iid, "kind": "text", "text": {"$cat": parts}, "deps": [{"name": "given", "version": "1.0"}],
+            "pattern": pat, "opts": rand_opts(rng, True)}
+
+
+def big_attr_item(rng, iid: str, n: int) -> dict:
+    """n attributes on one tag / n tokens in one class value / n dicts merged into one attribute / long values"""
+    keys = [f"data-k{j}" for j in range(n)]
+    rng.shuffle(keys)
+    toks = [rng.choice(CLASS_TOKENS) + str(j % max(2, n // 3)) for j in range(n)]
+    long_v = rep(rng.choice(UNITS_PLAIN + UNITS_SPECIAL), rng.choice(STR_LENS), 0, "")
+    descs = [
+        ["K", "div", [{k: str(j) for j, k in enumerate(keys)}], [["data_k0", "again"], ["title", long_v]], [["T", "x"]]],
+        ["K", "p", [{"class": " ".join(toks)}], [["class_", toks[-1] + " " + toks[0]]], []],
+        ["K", "span", [{"class": t, "style": f"p{j}:{j};"} for j, t in enumerate(toks)], [["className", "last"]], []],
+        ["K", "a", [{"href": long_v, "class": long_v}], [["class_", "tail"]], []]]
+    return {"id": iid, "kind": "tree", "descs": descs, "doc_kw": [["class", " ".join(toks[: n // 2])]],
+            "opts": rand_opts(rng, True)}
+
+
+def deep_item(rng, iid: str, depth: int) -> dict:
+    """a dependency, a head_content node and a long text at the bottom of `depth` levels of tags / lists /
+    tagifiable objects; a colliding dependency at the top"""
+    kind = rng.choice(["tags", "lists", "objects", "mixed"])
+    bottom = [dep("deep", "1.0", script={"src": "deep.js"}), hcf("T", marker(700000 + depth)), ["T", "bottom"],
+              ["H", rep("<i>x</i>", rng.choice([300, 5000]), 0, "")]]
+    t = G("b", False, [], bottom)
+    for lvl in range(depth):
+        k = kind if kind != "mixed" else rng.choice(["tags", "lists", "objects"])
+        if k == "tags":
+            t = G(rng.choice(["div", "span", "ul", "li", "section"]), rng.random() < 0.7, [], [t] if lvl % 5 else [["T", "t"], t])
+        elif k == "lists":
+            t = ["L", [t]] if lvl % 2 else ["L", [t], "t"]
+        else:
+            t = ["C", None, [G("div", True, [], [t])], lvl % 2 == 0]
+    # head_content whose own arguments are nested that deep
+    inner = ["T", "in" + marker(710000 + depth)]
+    for lvl in range(depth):
+        inner = G("div" if lvl % 2 else "span", lvl % 3 != 0, [], [inner])
+    descs = [dep("deep", "2.0", script={"src": "top.js"}), G("div", True, [], [t]), ["M", {"hc": [inner]}]]
+    return {"id": iid, "kind": "tree", "descs": descs, "doc_kw": [], "opts": rand_opts(rng, True)}
+
+
+def wide_item(rng, iid: str, n: int) -> dict:
+    kids: list = []
+    for j in range(n - 1):
+        r = rng.random()
+        kids.append(["T", f"t{j}<"] if r < 0.4 else ["H", f"<i>{j}</i>"] if r < 0.6 else
+                    G("span", False, [], [["T", str(j)]]) if r < 0.8 else
+                    dep(f"w{j % 5}", rng.choice(["1.0", "1.1"]), script={"src": f"w{j}.js"}))
+    kids.insert(0, dep("w0", "1.0", script={"src": "w-first.js"}))
+    kids.append(dep("w0", "5.0", script={"src": "w-last.js"}))
+    return {"id": iid, "kind": "tree", "descs": [G("ul", True, [], kids), ["L", kids[: n // 2]]], "doc_kw": [],
+            "opts": rand_opts(rng, n <= 70, 4)}
+
+
+def big_unique_item(rng, iid: str, n: int) -> dict:
+    vals = [f"v{rng.randrange(max(2, (2 * n) // 3))}" for _ in range(n - 2)]
+    vals += [rep("u", rng.choice([300, 5000, 70000]), 0, ""), vals[0]]
+    return {"id": iid, "kind": "unique", "values": vals}
+
+
+def long_prog_item(rng, iid: str, n: int) -> dict:
+    """n steps on few objects (a long history on one object)"""
+    profile = rng.choice(["class", "typed", "mixed"])
+    steps = [rand_creator(rng, 0, profile)]
+    nregs = 1
+    for j in range(n):
+        if j % 40 == 17:
+            steps.append(rand_creator(rng, nregs, profile))
+            nregs += 1
+        else:
+            steps.append(rand_mutator(rng, nregs, profile))
+    toks = " ".join(f"c{j}" for j in range(n))
+    steps += [["add_class", 0, toks, False], ["remove_class", 0, " ".join(f"c{j}" for j in range(0, n, 2))],
+              ["has_class", 0, f"c{n - 1}"], ["css", [[f"p{j}", j] for j in range(n)], ""], ["attrs", 0]]
+    return {"id": iid, "kind": "prog", "steps": steps, "doc_kw": [], "opts": rand_opts(rng, n <= 70, 4)}
+
+
+def fixed_long_items() -> list[dict]:
+    """families of long payloads that every run has (the PRNG-drawn ones come on top)"""
+    import random as _random
+    r = _random.Random(18)                      # a fixed battery: not the run's PRNG
+    css_unit = ".w{margin:0;padding:0}\n"
+    spec = [(300, ["meta", "meta", "T"], "ab", [300, 300, 0, 150]),
+            (4096, ["H", "H", "T"], "0123456789abcdef", [4096, 4096, 4095, 0]),
+            (5000, ["style", "style", "script"], css_unit, [5000, 5000, 4096, 2500, 0]),
+            (8192, ["H", "R", "T"], "q ", [8192, 8192, 4095, 4096, 4097]),
+            (12300, ["title", "title"], "x&y<z> ", [12300, 12300, 12288, 1]),
+            (65537, ["script", "script"], "a\U0001F600b", [65537, 65537, 65536]),
+            (70001, ["T", "T", "H"], "線-", [70001, 70001, 35000]),
+            (140000, ["style", "style"], css_unit, [140000, 140000])]
+    out = []
+    for j, (n, forms, unit, positions) in enumerate(spec):
+        it = long_family_item(r, f"fix:long-{n}", n, 900000 + 100 * j, forms=forms, unit=unit, positions=positions,
+                              layout=["flat", "html", "top", "chain", "body", "lists", "objects", "flat"][j])
+        it["opts"] = fixed_opts(j)
+        out.append(it)
+    for j, n in enumerate([33, 129, 257]):
+        it = hc_count_item(r, f"fix:hc-count-{n}", n, 800000 + 1000 * j)
+        it["opts"] = fixed_opts(j + 3)
+        out.append(it)
+    return out
+
+
+def big_items(rng, tag: str, quick: bool) -> list[dict]:
+    """the sparse big cases of one battery"""
+    out: list[dict] = []
+    k = 0
+    lens = [rng.choice(STR_LENS[-8:]), rng.choice(STR_LENS[12:-8]), rng.choice(STR_LENS[12:-8]), rng.choice(STR_LENS[:12])]
+    lens += [rng.choice(STR_LENS) for _ in range(2 if quick else 6)]
+    for n in lens:
+        out.append(long_family_item(rng, f"{tag}:long:{k}", n, 100000 + 100 * k))
+        k += 1
+    for n in pick_sizes(rng, 4 if quick else 7):
+        out.append(hc_count_item(rng, f"{tag}:hc-count:{k}", n, 200000 + 1000 * k))
+        k += 1
+    for n in pick_sizes(rng, 4 if quick else 7):
+        out += deps_count_items(rng, f"{tag}:deps:{k}", n)
+        k += 1
+    for n in pick_sizes(rng, 3 if quick else 6):
+        out.append(big_text_item(rng, f"{tag}:text:{k}", n, rng.choice([300, 5000, 70000])))
+        k += 1
+    for n in pick_sizes(rng, 3 if quick else 6):
+        out.append(big_attr_item(rng, f"{tag}:attrs:{k}", n))
+        k += 1
+    for d in pick_sizes(rng, 4 if quick else 7, DEPTHS):
+        out.append(deep_item(rng, f"{tag}:deep:{k}", d))
+        k += 1
+    for n in pick_sizes(rng, 3 if quick else 6):
+        out.append(wide_item(rng, f"{tag}:wide:{k}", n))
+        k += 1
+    for n in pick_sizes(rng, 3 if quick else 6):
+        out.append(big_unique_item(rng, f"{tag}:unique:{k}", n))
+        k += 1
+    for n in pick_sizes(rng, 3 if quick else 6):
+        out.append(long_prog_item(rng, f"{tag}:prog:{k}", n))
+        k += 1
     return out
 
 
@@ -688,6 +1159,9 @@ def walk(d, f):
             walk(x, f)
     elif k == "C":
         for x in d[2]:
+            walk(x, f)
+    elif k == "L":
+        for x in d[1]:
             walk(x, f)
     elif k == "M" and isinstance(d[1], dict) and "hc" in d[1]:
         for x in d[1]["hc"]:
@@ -770,10 +1244,29 @@ class SxEnc:
         if k == "C":
             exp = [y for x in d[2] for y in self.node(x)]
             return [[5, [] if d[1] is None else [S(d[1])], exp]]
+        if k == "L":
+            # a Python list of children: the constructors flatten it
+            return [y for x in d[1] for y in self.node(x)]
         raise ValueError(d)
 
     def nodes(self, descs):
         return [y for d in descs for y in self.node(d)]
+
+
+def nested_custom(item: dict) -> bool:
+    """a tagifiable object somewhere inside the expansion of another"""
+    def inside(d, in_c):
+        k = d[0]
+        if k == "C":
+            return in_c or any(inside(x, True) for x in d[2])
+        if k == "G":
+            return any(inside(x, in_c) for x in d[4])
+        if k == "L":
+            return any(inside(x, in_c) for x in d[1])
+        if k == "M" and isinstance(d[1], dict) and "hc" in d[1]:
+            return any(inside(x, in_c) for x in d[1]["hc"])
+        return False
+    return any(inside(d, False) for d in item.get("descs", []))
 
 
 def has_kind(item: dict, kind: str) -> bool:
@@ -832,50 +1325,130 @@ def first_occ(xs: list) -> list:
 
 
 def hc_contents_in_order(item: dict) -> list[str]:
-    """expected contents of the HC_POOL nodes of an hcdoc item, in document order"""
+    """expected contents of the head_content nodes of an hcdoc item (strings expanded), in document order: from the
+    node's "expect" = [form, text] when it has one, else from the hand-written pool"""
     by_payload = {canon(p): c for p, c in HC_POOL}
     out = []
 
     def f(d):
         if d[0] == "M" and isinstance(d[1], dict) and "hc" in d[1]:
-            out.append(by_payload[canon(d[1]["hc"])])
+            out.append(form_content(*d[1]["expect"]) if "expect" in d[1] else by_payload[canon(d[1]["hc"])])
     for d in item["descs"]:
-        # pool payloads contain no head_content themselves, so walk() only meets top-level ones
+        # these payloads contain no head_content themselves, so walk() only meets top-level ones
         walk(d, f)
     return out
 
 
-def check_reference(ctx: Ctx, items: list[dict], ref: dict) -> list:
-    """oracles that need one process only; returns the (name, content) log of the battery"""
+MARK_RE = r"m\d\d|\[k\d+\]"
+# document-like results of observe_routes (each: ["ok", digest, dependency rows] + its text)
+DOC_ROUTES = ["doc_opts", "doc_opts_again", "doc_copy", "doc_append", "tag_doc", "save", "textdoc", "textdoc_again",
+              "textdoc_json"]
+
+
+def short(x, lim: int = 300):
+    """long strings of a report: both ends, the length and a digest"""
+    if isinstance(x, str) and len(x) > lim:
+        return "%s ...[%d characters in all, sha1 %s]... %s" % (x[:120], len(x), sha1(x), x[-120:])
+    if isinstance(x, (list, tuple)):
+        return [short(y, lim) for y in x]
+    if isinstance(x, dict):
+        return {k: short(v, lim) for k, v in x.items()}
+    return x
+
+
+def first_diff(a: str, b: str) -> int:
+    n = min(len(a), len(b))
+    return next((i for i in range(n) if a[i] != b[i]), n)
+
+
+def check_hc_text(ctx: Ctx, shown: dict, where: str, contents: list[str], names_got, html: str) -> None:
+    """one document-like result of an item whose head_content contents are known: each distinct content is
+    there exactly once (every content carries prefix-free marker tokens mNN / [kNNNNNN]) and the names are
+    'headcontent_' + sha1(content) in first-occurrence order"""
+    import re
+    want = [HC + sha1(c) for c in first_occ(contents)]
+    marks = sorted(set(re.findall(MARK_RE, "".join(set(contents)))))
+    counts = {m: html.count(m) for m in marks}
+    expect_counts = {m: sum(c.count(m) for c in set(contents)) for m in marks}
+    if (names_got is not None and names_got != want) or counts != expect_counts:
+        bad = sorted(m for m in marks if counts[m] != expect_counts[m])
+        ctx.violation(V_DOC, shown, {"where": where,
+                                     "impl_output": {"names": names_got, "occurrences": {m: counts[m] for m in bad[:20]}},
+                                     "expected": {"names": want, "occurrences": {m: expect_counts[m] for m in bad[:20]}},
+                                     "contents": short(first_occ(contents)[:12])})
+
+
+def check_reference(ctx: Ctx, items: list[dict], ref: dict, compact: dict | None = None) -> list:
+    """oracles that need one process only; returns the (name, content) log of the battery.  `items` have their
+    strings expanded; reports show the compact notation (`compact`: id -> item as generated)."""
+    def shown(it):
+        return plain((compact or {}).get(it["id"], it))
     log = []
+    form_bad = []
     for it in items:
         o = ref[it["id"]]
         for name, content in o.get("_hc_raw", []):
-            log.append((name, content))
+            log.append((name, content, it["id"]))
             if name != HC + sha1(content):
-                ctx.violation(V_NAME, it, {"impl_output": name, "expected": HC + sha1(content), "content": content})
+                ctx.violation(V_NAME, shown(it), {"impl_output": name, "expected": HC + sha1(content),
+                                                  "content": short(content)})
+        if it["kind"] == "text":
+            bad = o["text"][1].get("reuse_bad") if o["text"][0] == "ok" else None
+        else:
+            bad = o.get("reuse_bad")
+        if bad:
+            ctx.violation(V_SECOND, shown(it), {"impl_output": bad, "expected": "the same result from the same arguments"})
         if it["kind"] in ("tree", "expr", "prog"):
             if o.get("html", ["err"])[0] == "ok" and (o["html_again"] != o["html"] or o["str"] != o["html"]):
-                ctx.violation(V_AGAIN, it, {"impl_output": [o["html_again"], o["str"]], "expected": o["html"]})
+                ctx.violation(V_AGAIN, shown(it), {"impl_output": [o["html_again"], o["str"]], "expected": o["html"]})
+            if "json_again" in o and o["json_again"] != o["json"]:
+                ctx.violation(V_AGAIN, shown(it), {"where": "str(x) in json dependency mode (markup and every dependency written out), "
+                                                            "first and after the other entry points were used on x",
+                                                   "impl_output": o["json_again"], "expected": o["json"], "opts": it.get("opts")})
+            R = o.get("routes")
+            if R is not None and o.get("html", ["err"])[0] == "ok":
+                # after every other entry point has been used on it, the object renders as before; the same
+                # document made twice is the same
+                pairs = [("render() after the other entry points", R.get("html_after"), o["html"]),
+                         ("render()['dependencies'] after the lists handed out earlier were changed by the caller",
+                          R.get("deps_after"), ["ok", o.get("deps")]),
+                         ("HTMLDocument(x).render(lib_prefix=, include_version=) made twice", R.get("doc_opts_again"), R.get("doc_opts")),
+                         ("HTMLTextDocument of the json-mode text made twice", R.get("textdoc_again"), R.get("textdoc"))]
+                for what, got, want in pairs:
+                    if got is not None and want is not None and got != want:
+                        ctx.violation(V_AGAIN, shown(it), {"where": what, "impl_output": got, "expected": want,
+                                                           "opts": it.get("opts")})
             # no name twice among the dependencies of a rendering
-            for key in ("deps", "doc_deps"):
-                names = [r[0] for r in o.get(key, [])]
+            rows_of = [(key, o.get(key, [])) for key in ("deps", "doc_deps")]
+            if R is not None:
+                rows_of += [(k, v[2]) for k, v in R.items() if k in DOC_ROUTES + ["tag_render"] and v[0] == "ok" and len(v) > 2
+                            and k != "save"]
+                rows_of += [(k, R[k][1]) for k in ("deps_dedup", "tag_deps") if R.get(k, ["err"])[0] == "ok"]
+            for key, rows in rows_of:
+                names = [r[0] for r in rows]
                 if len(set(names)) != len(names):
-                    ctx.violation(V_DOC, it, {"impl_output": names, "expected": "each name once"})
-        if it.get("_hcdoc") and o.get("doc", ["err"])[0] == "ok":
+                    ctx.violation(V_DOC, shown(it), {"where": key, "impl_output": names, "expected": "each name once"})
+        if it.get("hcdoc"):
             contents = hc_contents_in_order(it)
-            want = [HC + sha1(c) for c in first_occ(contents)]
-            got = [r[0] for r in o["doc_deps"] if r[0].startswith(HC)]
-            html = o["_doc_raw"]
-            # every pool content carries marker tokens mNN (prefix-free): each distinct content is
-            # written to the document exactly once
-            import re
-            marks = sorted(set(re.findall(r"m\d\d", "".join(contents))))
-            counts = {m: html.count(m) for m in marks}
-            expect_counts = {m: sum(c.count(m) for c in set(contents)) for m in marks}
-            if got != want or counts != expect_counts:
-                ctx.violation(V_DOC, it, {"impl_output": {"names": got, "occurrences": counts},
-                                          "expected": {"names": want, "occurrences": expect_counts}})
+            # (the forms' expected contents against the implementation's own rendering of the arguments)
+            impl_contents = [c for _, c in o.get("_hc_raw", [])][0::2]
+            if o.get("build", ["err"])[0] == "ok" and impl_contents != contents:
+                form_bad.append({"case": shown(it), "impl_output": short(impl_contents[:6]), "expected": short(contents[:6])})
+            if o.get("html", ["err"])[0] == "ok":
+                want = [HC + sha1(c) for c in first_occ(contents)]
+                got = [r[0] for r in o["deps"] if r[0].startswith(HC)]
+                if got != want:
+                    ctx.violation(V_DOC, shown(it), {"where": "render()['dependencies']", "impl_output": got,
+                                                     "expected": want, "contents": short(first_occ(contents)[:12])})
+            if o.get("doc", ["err"])[0] == "ok":
+                check_hc_text(ctx, shown(it), "HTMLDocument(x, **doc_kw).render()", contents,
+                              [r[0] for r in o["doc_deps"] if r[0].startswith(HC)], o["_doc_raw"])
+            R = o.get("routes") or {}
+            for route in DOC_ROUTES:
+                if R.get(route, ["err"])[0] == "ok" and route in o.get("_routes_raw", {}):
+                    names = None if route == "save" else [r[0] for r in R[route][2] if r[0].startswith(HC)]
+                    check_hc_text(ctx, shown(it), "route %s with opts %s" % (route, json.dumps(it.get("opts"))),
+                                  contents, names, o["_routes_raw"][route])
         if it.get("_pkg") and o.get("doc", ["err"])[0] == "ok":
             # colliding names in one document: only the resolved (kept) dependencies are written
             kept = {r[2] for r in o["doc_deps"]}
@@ -901,19 +1474,38 @@ def check_reference(ctx: Ctx, items: list[dict], ref: dict) -> list:
                 ext.append([p["name"], p["version"]])
             want = [[p["name"], p["version"]] for p in it["deps"]] + ext
             if r["deps"] != want or r["static"] != ext:
-                ctx.violation(V_EXTRACT, it, {"impl_output": {"deps": r["deps"], "static": r["static"]},
-                                              "expected": {"deps": want, "static": ext}})
+                ctx.violation(V_EXTRACT, shown(it), {"impl_output": {"deps": r["deps"], "static": r["static"]},
+                                                     "expected": {"deps": want, "static": ext}})
+            if "html_again" in r and r["html_again"] != r["html"]:
+                ctx.violation(V_AGAIN, shown(it), {"where": "HTMLTextDocument.render() twice", "impl_output": r["html_again"],
+                                                   "expected": r["html"]})
+            if "second" in r and r["second"] != [r["html"], r["deps"]]:
+                ctx.violation(V_SECOND, shown(it), {"where": "a second HTMLTextDocument from the same text and an equal, "
+                                                             "separate deps list", "impl_output": r["second"],
+                                                    "expected": [r["html"], r["deps"]]})
+            if "opts" in r and r["opts"][1] != want:
+                ctx.violation(V_EXTRACT, shown(it), {"where": "render(lib_prefix=, include_version=)", "opts": it.get("opts"),
+                                                     "impl_output": r["opts"][1], "expected": want})
         if it["kind"] == "unique" and o["unique"] != ["ok", first_occ(it["values"])]:
-            ctx.violation(V_UNIQUE, it, {"impl_output": o["unique"], "expected": first_occ(it["values"])})
+            ctx.violation(V_UNIQUE, shown(it), {"impl_output": short(o["unique"]), "expected": short(first_occ(it["values"]))})
+    ctx.obligation("expected contents of the generated head_content forms = the implementation's rendering of "
+                   "the arguments (%d hcdoc items)" % sum(1 for it in items if it.get("hcdoc")), not form_bad)
+    if form_bad:
+        ctx.extra["disagree_forms"] = form_bad[:2]
     # all pairs: equal content <=> equal name
     by_content: dict = {}
     by_name: dict = {}
-    for name, content in log:
-        if by_content.setdefault(content, name) != name:
-            ctx.violation(V_SPLIT, {"content": content}, {"impl_output": [by_content[content], name],
-                                                          "expected": "one name"})
-        if by_name.setdefault(name, content) != content:
-            ctx.violation(V_MERGE, {"contents": [by_name[name], content]},
+    ids = {it["id"]: it for it in items}
+    for name, content, iid in log:
+        if by_content.setdefault(content, (name, iid))[0] != name:
+            ctx.violation(V_SPLIT, {"content": short(content), "items": [shown(ids[i]) for i in sorted({by_content[content][1], iid})]},
+                          {"impl_output": [by_content[content][0], name], "expected": "one name"})
+        if by_name.setdefault(name, (content, iid))[0] != content:
+            other, oid = by_name[name]
+            ctx.violation(V_MERGE, {"contents": [short(other), short(content)],
+                                    "lengths": [len(other), len(content)],
+                                    "first_difference_at_character": first_diff(other, content),
+                                    "items": [shown(ids[i]) for i in sorted({oid, iid})]},
                           {"impl_output": name, "expected": "two names"})
     return log
 
@@ -933,8 +1525,9 @@ def correspondence(ctx: Ctx, items: list[dict], ref: dict, label: str) -> None:
     for p, _ in HC_POOL:
         payloads.setdefault(canon(p), p)
     keys = sorted(payloads)
-    # no payload with attribute-dict tags (K) reaches the model
-    keys = [k for k in keys if not any(has_kind({"descs": [d]}, "K") for d in payloads[k])]
+    # no payload with attribute-dict tags (K) reaches the model; nor do the very long ones (the model's strings are
+    # lists of code points: the theorems are about all strings, the long ones are judged by the oracles of step C)
+    keys = [k for k in keys if not any(has_kind({"descs": [d]}, "K") for d in payloads[k]) and len(k) <= MODEL_MAX]
     # (op 3 travels in the same model run: one driver start-up less)
     rcases = [it for it in items if it["kind"] == "resolve"]
     model_all = run_model([[1, SxEnc({}).nodes(payloads[k])] for k in keys] +
@@ -988,7 +1581,8 @@ def correspondence(ctx: Ctx, items: list[dict], ref: dict, label: str) -> None:
     # ---- op 2: TagList.render() of the tree items ------------------------------------------
     cases, sxs = [], []
     for it in items:
-        if it["kind"] != "tree" or has_kind(it, "K"):
+        # (the model's tagifiable objects expand to content without further objects, as harness/trees.py makes them)
+        if it["kind"] != "tree" or has_kind(it, "K") or len(canon(it["descs"])) > MODEL_MAX or nested_custom(it):
             continue
         enc = SxEnc(hc_names)
         nodes = enc.nodes(it["descs"])
@@ -1058,7 +1652,7 @@ def first_of(ctx: Ctx, what: str) -> bool:
 
 
 def texts(o: dict | None) -> dict:
-    return {k[1:-4]: o[k] for k in ("_html_raw", "_doc_raw") if o and k in o}
+    return {k[1:-4]: short(o[k], 6000) for k in ("_html_raw", "_doc_raw") if o and k in o}
 
 
 def one_run(items: list[dict], it: dict, hashseed: str) -> dict | None:
@@ -1125,9 +1719,21 @@ def history_detail(ex: dict, hashseed: str) -> dict:
 # ------------------------------------------------------------------------------------------
 def process_battery(ctx: Ctx, items: list[dict], configs: list[tuple[str, int]], label: str,
                     pool: ThreadPoolExecutor, n_fresh: int = 12) -> dict:
+    import time as _time
+    t_start = _time.time()
+    phases: dict = {}
+
+    def phase(name: str) -> None:
+        now = _time.time()
+        phases[name] = round(now - phase.t, 1)
+        phase.t = now
+    phase.t = t_start
     ids = [it["id"] for it in items]
     assert len(set(ids)) == len(ids)
     bj = wire(items)
+    # the items with their strings written out ({"$rep": ...} / {"$cat": ...} expanded): what the oracles and the
+    # model see; reports show the items as generated
+    xitems = [ensure_payloads(W.expand(it)) for it in items]
     # the history-free reference runs use the hash seed of one of the worker processes (the first that is
     # not "random"): that worker and the reference differ by the history only.  (The hash seed of THIS process
     # is whatever ./check was started with.)
@@ -1152,10 +1758,13 @@ def process_battery(ctx: Ctx, items: list[dict], configs: list[tuple[str, int]],
     for it in items:
         ctx.count({"item": it["id"], "battery": label, "where": "in-process"}, nontrivial(it),
                   f"{it['kind']} (in-process reference)")
-    check_reference(ctx, items, ref)
-    correspondence(ctx, items, ref, label)
-
     by_id = {it["id"]: it for it in items}
+    phase("in-process reference")
+    check_reference(ctx, xitems, ref, by_id)
+    phase("oracles")
+    correspondence(ctx, xitems, ref, label)
+    phase("correspondence")
+
     failed, probes, wrong_import, mode_bad = [], set(), [], []
     n_diff = 0
     w_h = None                      # the results of the worker that ran with h_seed
@@ -1215,6 +1824,7 @@ def process_battery(ctx: Ctx, items: list[dict], configs: list[tuple[str, int]],
                         detail["cause"] = ("what was built or rendered earlier in %s: the item alone in a fresh interpreter "
                                            "gives texts_alone" % who)
                 ctx.violation(V_PROC, plain(it), detail)
+    phase("workers")
     # ---- history: at the end of the run (everything has been built and rendered in this process)
     # every item once more; against its first rendering and against the history-free references
     for it in reversed(items):
@@ -1235,6 +1845,7 @@ def process_battery(ctx: Ctx, items: list[dict], configs: list[tuple[str, int]],
                     others = [x for x in items if x["id"] != it["id"]]
                     detail.update(history_detail(explain(pool, others, it, h_seed), h_seed))
             ctx.violation(V_HISTORY, plain(it), detail)
+    phase("end-of-run re-rendering")
     iso_failed = []
     for what, futs, groups in (("forked child of a process that rendered nothing", iso_futures, shards),
                                ("fresh interpreter given this item only", fresh_futures, [[x] for x in fresh_items])):
@@ -1279,6 +1890,8 @@ def process_battery(ctx: Ctx, items: list[dict], configs: list[tuple[str, int]],
         ctx.extra["proof_log_tail"] = json.dumps(failed[:2])[-2500:]
     ctx.obligation(f"workers imported htmltools from {REPO} and left the render mode restored ({label})",
                    not wrong_import and not mode_bad)
+    phase("history-free references")
+    ctx.extra.setdefault("phase_wall_s", {})[label] = phases
     return {"probes": probes, "diffs": n_diff, "processes": len(configs) - len(failed)}
 
 
@@ -1299,7 +1912,21 @@ def run(ctx: Ctx, only_items: list[dict] | None = None) -> None:
                 "documents over the head_content pool; texts with 2..16 serialised dependencies drawn with repetition; "
                 "dependency lists; string lists; package-sourced dependencies (htmltools/lib) with colliding names and different versions, colliding (name, version) with different subdirs, one document per item, rendered under several lib_prefix / include_version settings) plus, bounded-exhaustively, every ordered pair (thorough: triple) of pool payloads in one document.  Every battery is built and rendered in-process and in N interpreter "
                 "processes with distinct PYTHONHASHSEED (0, 1, random, 4294967295, PRNG-drawn) each in its own "
-                "permutation of the items; in addition every item is re-rendered in-process at the end of the run and rendered without history (in a forked child of a process that rendered nothing; a sample, all fixed package-sourced items included, in a fresh interpreter given that item only).  An evaluation = one item in one process; non-trivial = the item has a "
+                "permutation of the items; in addition every item is re-rendered in-process at the end of the run and rendered without history (in a forked child of a process that rendered nothing; a sample, all fixed package-sourced items included, in a fresh interpreter given that item only).  Sizes: every run also has families of head_content payloads that share a base of 300 .. 140000 "
+                "characters (lengths around 2^k, 5000, 70001) and differ in a marker at the head / middle / a 2^k seam / the tail, in "
+                "several forms (text, HTML, self-rendered, style, script, title, attribute value; multi-byte units), with equal-content "
+                "twins, in documents of several layouts (flat, nested lists / tuples, chains, tagifiable objects, body root, html root "
+                "with its own head); documents with 7 .. 300 head_content nodes / dependencies / versions of one name, texts with "
+                "7 .. 300 serialised dependencies and long fillers, unique() lists, tags with 7 .. 300 attributes / class tokens / "
+                "merged dicts, nesting 7 .. 70 deep, programs of 7 .. 300 steps (sizes around 8, 16, ..., 256, 300; one of the four "
+                "largest always).  Entry points: a fifth of the tree / text / program items (all fixed trees, all big items) carry "
+                "non-default arguments (indent, eol, add_ws, lib_prefix, include_version, libdir, deps_replace_pattern with regex "
+                "metacharacters, wrapper tag, construction under json render mode) and are also taken through get_html_string / "
+                "tagify / get_dependencies(dedup=) / repr / _repr_html_ / a second parent / copy / deepcopy / == / + / += / insert / "
+                "append / extend / HTMLDocument render, copy, append / save_html of list, tag and document / json mode with "
+                "HTMLTextDocument / the with-block; each such result is compared across processes and histories, the document-like "
+                "ones of items with known head_content contents are checked for once-per-content, and afterwards the object must "
+                "render as before.  An evaluation = one item in one process; non-trivial = the item has a "
                 "dependency / head_content / >= 2 attributes or is a text / list / program item; distinct = (item, process).")
     ctx.assumptions = [
         "process-level determinism is observed on the sampled hash seeds and orders, not proved (DESIGN C18: PARTIAL)",
@@ -1329,6 +1956,7 @@ def run(ctx: Ctx, only_items: list[dict] | None = None) -> None:
             else:
                 items = fixed + rand_battery(rng, ctx.budget(800, 2500), f"rand{b}")
                 items += [rand_prog_item(rng, f"prog{b}:{i}") for i in range(ctx.budget(300, 1500))]
+                items += big_items(rng, f"big{b}", ctx.quick)
                 if b == 0:
                     items = items + exhaustive_hc_items(ctx.budget(2, 3))
             configs = [(seeds[b * per + j], rng.randrange(1, 2**31)) for j in range(per)]
